@@ -473,6 +473,7 @@ pub fn def(tier: Tier) -> CheckDef {
             "the overline row is compared in characters, as the property states",
         ],
         idle_limit_s: 300,
+        needs_cli: false,
         parts: vec![
             Part {
                 name: "regressions",
